@@ -33,6 +33,8 @@ func runC14(c *core.Ctx) {
 	c.Rule("R8", "the partition lookup the ranges are measured against returns the id at the position whose active flag it tested (shared with C15.R6)", 2)
 	c.Rule("R9", "the instance lookup the ranges are measured against keeps its per-zone counters on separate storage (shared with C01.R7)", 1)
 	c.Rule("R10", "the token list and token→partition map of a PartitionRing are computed from the descriptor it stores (shared with C13.R5)", 1)
+	c.Rule("R12", "one token, one owner: a conflict is detected on the token value alone, whatever the zones of its holders (shared with C05.R9)", 1)
+	c.Rule("R13", "the equality shortcut that keeps the token index the ranges are computed from compares every token (shared with C05.R13)", 2)
 	c.Rule("R2", "a pending range bound recorded with its flag is consumed on every path to a successful return", 2)
 	pkg := c.Prog.Pkg("ring")
 	if pkg == nil {
@@ -80,6 +82,8 @@ func runC14(c *core.Ctx) {
 	c01CountersAs(c, pkg, "R9")
 	c01SearchTokenAs(c, pkg, "R11")
 	c13PartitionDerived(c, pkg, "R10")
+	c.As("R9", "R12", func() { c05ConflictKey(c, pkg) })
+	pairwiseLoopsAs(c, pkg, "R13", 2)
 }
 
 // c14Extremum (R7): a selection loop over 32-bit tokens/keys must not use the largest (or smallest)
